@@ -311,8 +311,10 @@ class GraphNode(HyperNode):
         if not reverse_map:
             return outputs
 
-        # Build forward map (original -> renamed) by inverting reverse map
-        forward_map = {v: k for k, v in reverse_map.items()}
+        # Build forward map (original -> renamed) from the CURRENT output names only.
+        # Inverting the whole reverse map would also pick up names that were given up
+        # again by a later rename (e.g. s->t, t->s followed by t->u, s->t).
+        forward_map = {reverse_map.get(name, name): name for name in self.outputs}
         return {forward_map.get(key, key): value for key, value in outputs.items()}
 
     def has_default_for(self, param: str) -> bool:
